@@ -48,6 +48,21 @@ def gen(ctx):
                 nd["matrix"][1][j] = nd["matrix"][0][j] - 1 if nd["objectives"][j] == 1 else nd["matrix"][0][j] + 1
             dm = nd
         cases.append({"spec": spec, "dm": dm})
+    # duplicated alternatives at different positions of LONG float problems (5-9 criteria, decimal values and weights): a kernel
+    # whose summation order depends on the row position gives the copies different last bits, hence different ranks
+    for _ in range(ctx.n(60, 600)):
+        name = rng.choice(["WSM", "RatioMOORA", "RatioMOORA", "TOPSIS", "RefPointMOORA", "WPM", "FMF"])
+        spec = {"name": name}
+        if name == "TOPSIS":
+            spec["metric"] = rng.choice(METRICS)
+        dm = M.in_domain_dm(rng, spec, min_m=8, max_m=14, min_n=5, max_n=9, family="float", ties=0.0, dups=0.0)
+        dm["matrix"] = [[round(x, 3) + 0.1 for x in row] for row in dm["matrix"]]
+        dm["weights"] = [rng.choice([0.1, 0.3, 0.7, 0.15, 0.45, 1.3, 0.05]) for _ in dm["weights"]]
+        m_ = len(dm["matrix"])
+        for _k in range(rng.randint(1, 3)):
+            a, b = rng.sample(range(m_), 2)
+            dm["matrix"][b] = list(dm["matrix"][a])
+        cases.append({"spec": spec, "dm": dm})
     return cases
 
 
